@@ -1,6 +1,5 @@
 //! CLI-related methods for fixture display and tree printing.
 
-use super::types::FixtureDefinition;
 use super::FixtureDatabase;
 use std::collections::{BTreeMap, BTreeSet, HashMap, HashSet};
 use std::path::{Path, PathBuf};
@@ -21,32 +20,17 @@ impl FixtureDatabase {
         // Cache for resolved definitions
         let mut resolution_cache: HashMap<(PathBuf, String), Option<PathBuf>> = HashMap::new();
 
-        // Pre-compute fixture definition lines per file
-        let mut fixture_def_lines: HashMap<PathBuf, HashMap<usize, FixtureDefinition>> =
-            HashMap::new();
-        for entry in self.definitions.iter() {
-            for def in entry.value().iter() {
-                fixture_def_lines
-                    .entry(def.file_path.clone())
-                    .or_default()
-                    .insert(def.line, def.clone());
-            }
-        }
-
         // Iterate all usages once
         for entry in self.usages.iter() {
             let file_path = entry.key();
             let usages = entry.value();
-            let file_def_lines = fixture_def_lines.get(file_path);
 
             for usage in usages.iter() {
-                let fixture_def_at_line = file_def_lines
-                    .and_then(|lines| lines.get(&usage.line))
-                    .cloned();
+                // A parameter of a same-named fixture (also on a wrapped signature line)
+                let fixture_def_at_line =
+                    self.get_fixture_definition_enclosing_line(file_path, usage.line, &usage.name);
 
-                let is_self_referencing = fixture_def_at_line
-                    .as_ref()
-                    .is_some_and(|def| def.name == usage.name);
+                let is_self_referencing = fixture_def_at_line.is_some();
 
                 let resolved_def = if is_self_referencing {
                     self.find_closest_definition_excluding(
